@@ -7,6 +7,7 @@ import (
 	"os"
 	"os/exec"
 	"path/filepath"
+	"regexp"
 	"strings"
 	"sync"
 	"time"
@@ -133,11 +134,11 @@ func Ite(c, a, b Term) Term {
 }
 
 func Select(arr Term, idx Term, elem Sort) Term { return Term{app("select", arr, idx), elem} }
-func Store(arr, idx, v Term) Term             { return Term{app("store", arr, idx, v), arr.Sort} }
-func Add(a, b Term) Term                      { return Term{app("+", a, b), SInt} }
-func Sub(a, b Term) Term                      { return Term{app("-", a, b), SInt} }
-func Lt(a, b Term) Term                       { return Term{app("<", a, b), SBool} }
-func Le(a, b Term) Term                       { return Term{app("<=", a, b), SBool} }
+func Store(arr, idx, v Term) Term               { return Term{app("store", arr, idx, v), arr.Sort} }
+func Add(a, b Term) Term                        { return Term{app("+", a, b), SInt} }
+func Sub(a, b Term) Term                        { return Term{app("-", a, b), SInt} }
+func Lt(a, b Term) Term                         { return Term{app("<", a, b), SBool} }
+func Le(a, b Term) Term                         { return Term{app("<=", a, b), SBool} }
 
 func ArraySort(k, v Sort) Sort { return Sort(fmt.Sprintf("(Array %s %s)", k, v)) }
 
@@ -162,6 +163,55 @@ type ReplayResult struct {
 	Inputs    string `json:"inputs,omitempty"`
 }
 
+// lambdaFrames rewrites frame assumptions
+//
+//	(=> at (forall ((x Int)) (! (=> (< x PRE) (= (select NEW x) (select OLD x))) :pattern ...)))
+//
+// into the equivalent array equation NEW = (lambda x. ite(x < PRE, OLD[x], F[x])) with a fresh array F
+// (take F := NEW for one direction; the other is beta reduction). Z3 evaluates selects of a lambda natively,
+// so dozens of e-matching quantifiers per call disappear from the query. Z3-only syntax.
+var frameAxiomRe = regexp.MustCompile(`^\(assert \(=> (\S+) \(forall \(\(((?:cf|fr)![0-9]+) Int\)\) \(! \(=> \(< (\S+) (\S+)\) \(= \(select (\S+) (\S+)\) \(select (\S+) (\S+)\)\)\) :pattern \(\(select \S+ \S+\)\)\)\)\)\)$`)
+var declConstRe = regexp.MustCompile(`^\(declare-(?:const (\S+)|fun (\S+) \(\)) (.*)\)$`)
+
+func lambdaFrames(query string) string {
+	lines := strings.Split(query, "\n")
+	sorts := map[string]string{}
+	for _, l := range lines {
+		if m := declConstRe.FindStringSubmatch(l); m != nil {
+			name := m[1]
+			if name == "" {
+				name = m[2]
+			}
+			sorts[name] = m[3]
+		}
+	}
+	var out, extra []string
+	n := 0
+	for _, l := range lines {
+		m := frameAxiomRe.FindStringSubmatch(l)
+		if m == nil || m[2] != m[3] || m[2] != m[6] || m[2] != m[8] || sorts[m[5]] == "" {
+			out = append(out, l)
+			continue
+		}
+		n++
+		f := fmt.Sprintf("lamfresh!%d", n)
+		extra = append(extra, fmt.Sprintf("(declare-const %s %s)", f, sorts[m[5]]))
+		out = append(out, fmt.Sprintf("(assert (=> %s (= %s (lambda ((lr Int)) (ite (< lr %s) (select %s lr) (select %s lr))))))", m[1], m[5], m[4], m[7], f))
+	}
+	if n == 0 {
+		return query
+	}
+	for i, l := range out {
+		if strings.HasPrefix(l, "(assert") {
+			res := append([]string{}, out[:i]...)
+			res = append(res, extra...)
+			res = append(res, out[i:]...)
+			return strings.Join(res, "\n")
+		}
+	}
+	return query
+}
+
 type solverSpec struct {
 	name string
 	args func(file string, timeoutS int) []string
@@ -175,78 +225,83 @@ var solvers = []solverSpec{
 	}},
 }
 
-var solverSem = make(chan struct{}, 14)
+// Without the array extensionality axiom and without model-based instantiation the solver decides a weaker
+// theory: its `unsat` answers stand (only valid axioms were used), its `sat` answers do not and are reported as
+// unknown. Array-valued equalities under quantifiers (frame conditions over map domains) otherwise drown the
+// e-matching engine in extensionality witnesses. This configuration reads the lambda-frame form of a query.
+var noextSolver = solverSpec{"z3-new-noext", func(f string, t int) []string {
+	return []string{"z3-new", fmt.Sprintf("-T:%d", t), "smt.array.extensional=false", "smt.mbqi=false", f}
+}}
 
-// runPortfolio races the solvers on the query text; the first definite answer
-// (unsat or sat) wins. If all say unknown/timeout the best non-answer is returned.
-func runPortfolio(scratch, name, query string, getValues []string, timeoutS int, all bool) SolverResult {
-	file := filepath.Join(scratch, sanitize(name)+".smt2")
-	var full strings.Builder
-	full.WriteString(query)
-	full.WriteString("(check-sat)\n")
-	if len(getValues) > 0 {
-		// ask for values in chunks; harmless after unsat (error line ignored)
-		for i := 0; i < len(getValues); i += 40 {
-			j := i + 40
-			if j > len(getValues) {
-				j = len(getValues)
-			}
-			full.WriteString("(get-value (" + strings.Join(getValues[i:j], " ") + "))\n")
+var solverSem = make(chan struct{}, 16)
+
+// solverJob: one solver process on one query file.
+type solverJob struct {
+	spec      solverSpec
+	file      string
+	label     string // reported solver name
+	unsatOnly bool   // a `sat` answer of this job carries no meaning (weakened query or weakened theory)
+}
+
+func runJob(ctx context.Context, j solverJob, timeoutS int) SolverResult {
+	solverSem <- struct{}{}
+	defer func() { <-solverSem }()
+	if ctx.Err() != nil {
+		return SolverResult{Status: "cancelled", Solver: j.label}
+	}
+	args := j.spec.args(j.file, timeoutS)
+	start := time.Now()
+	cctx, ccancel := context.WithTimeout(ctx, time.Duration(timeoutS+2)*time.Second)
+	defer ccancel()
+	cmd := exec.CommandContext(cctx, args[0], args[1:]...)
+	var out bytes.Buffer
+	cmd.Stdout = &out
+	cmd.Stderr = &out
+	_ = cmd.Run()
+	el := time.Since(start).Seconds()
+	text := out.String()
+	if len(text) > 1<<16 {
+		text = text[:1<<16]
+	}
+	first := strings.TrimSpace(strings.SplitN(text, "\n", 2)[0])
+	r := SolverResult{Solver: j.label, TimeS: el, Output: text}
+	switch {
+	case first == "unsat":
+		r.Status = "unsat"
+	case first == "sat" && j.unsatOnly:
+		r.Status = "unknown"
+	case first == "sat":
+		r.Status = "sat"
+		r.Model = parseGetValues(text)
+	case first == "unknown":
+		r.Status = "unknown"
+		if !j.unsatOnly {
+			r.Model = parseGetValues(text)
+		}
+	case first == "timeout" || cctx.Err() != nil:
+		r.Status = "timeout"
+	default:
+		if strings.Contains(text, "timeout") || strings.Contains(text, "interrupted") {
+			r.Status = "timeout"
+		} else {
+			r.Status = "error"
 		}
 	}
-	if err := os.WriteFile(file, []byte(full.String()), 0644); err != nil {
-		return SolverResult{Status: "error", Output: err.Error()}
-	}
+	return r
+}
+
+// raceJobs runs the jobs concurrently; the first definite answer (unsat or sat) wins unless all is set.
+func raceJobs(jobs []solverJob, timeoutS int, all bool) SolverResult {
 	ctx, cancel := context.WithCancel(context.Background())
 	defer cancel()
-	results := make(chan SolverResult, len(solvers))
+	results := make(chan SolverResult, len(jobs))
 	var wg sync.WaitGroup
-	for _, sp := range solvers {
+	for _, j := range jobs {
 		wg.Add(1)
-		go func(sp solverSpec) {
+		go func(j solverJob) {
 			defer wg.Done()
-			solverSem <- struct{}{}
-			defer func() { <-solverSem }()
-			if ctx.Err() != nil {
-				results <- SolverResult{Status: "cancelled", Solver: sp.name}
-				return
-			}
-			args := sp.args(file, timeoutS)
-			start := time.Now()
-			cctx, ccancel := context.WithTimeout(ctx, time.Duration(timeoutS+2)*time.Second)
-			defer ccancel()
-			cmd := exec.CommandContext(cctx, args[0], args[1:]...)
-			var out bytes.Buffer
-			cmd.Stdout = &out
-			cmd.Stderr = &out
-			_ = cmd.Run()
-			el := time.Since(start).Seconds()
-			text := out.String()
-			if len(text) > 1<<16 {
-				text = text[:1<<16]
-			}
-			first := strings.TrimSpace(strings.SplitN(text, "\n", 2)[0])
-			r := SolverResult{Solver: sp.name, TimeS: el, Output: text}
-			switch {
-			case first == "unsat":
-				r.Status = "unsat"
-			case first == "sat":
-				r.Status = "sat"
-				r.Model = parseGetValues(text)
-			case first == "unknown":
-				r.Status = "unknown"
-				r.Model = parseGetValues(text)
-			case first == "timeout" || cctx.Err() != nil:
-				r.Status = "timeout"
-			default:
-				if strings.Contains(text, "timeout") || strings.Contains(text, "interrupted") {
-					r.Status = "timeout"
-				} else {
-					r.Status = "error"
-				}
-			}
-			results <- r
-		}(sp)
+			results <- runJob(ctx, j, timeoutS)
+		}(j)
 	}
 	go func() { wg.Wait(); close(results) }()
 	var best SolverResult
@@ -257,7 +312,6 @@ func runPortfolio(scratch, name, query string, getValues []string, timeoutS int,
 			definite = append(definite, r)
 			if !all {
 				cancel()
-				// drain
 				go func() {
 					for range results {
 					}
@@ -280,6 +334,69 @@ func runPortfolio(scratch, name, query string, getValues []string, timeoutS int,
 		return definite[0]
 	}
 	return best
+}
+
+func withValues(query string, getValues []string) string {
+	var full strings.Builder
+	full.WriteString(query)
+	full.WriteString("(check-sat)\n")
+	// ask for values in chunks; harmless after unsat (error line ignored)
+	for i := 0; i < len(getValues); i += 40 {
+		j := i + 40
+		if j > len(getValues) {
+			j = len(getValues)
+		}
+		full.WriteString("(get-value (" + strings.Join(getValues[i:j], " ") + "))\n")
+	}
+	return full.String()
+}
+
+// runPortfolio races the solvers on the query text; the first definite answer
+// (unsat or sat) wins. If all say unknown/timeout the best non-answer is returned.
+func runPortfolio(scratch, name, query string, getValues []string, timeoutS int, all bool) SolverResult {
+	return runStaged(scratch, name, query, nil, getValues, timeoutS, all)
+}
+
+// runStaged: stage 1 tries the weakened variants of the query (fewer assumptions, lambda frames, no
+// extensionality) with a short limit: most obligations end here in a fraction of a second. Stage 2 races the
+// full query on all solvers together with the weakened variants at the full limit.
+func runStaged(scratch, name, full string, weakened []string, getValues []string, timeoutS int, all bool) SolverResult {
+	base := filepath.Join(scratch, sanitize(name))
+	file := base + ".smt2"
+	if err := os.WriteFile(file, []byte(withValues(full, getValues)), 0644); err != nil {
+		return SolverResult{Status: "error", Output: err.Error()}
+	}
+	var fast []solverJob
+	seen := map[string]bool{}
+	for i, w := range append(weakened, full) {
+		if seen[w] {
+			continue
+		}
+		seen[w] = true
+		f := fmt.Sprintf("%s.w%d.smt2", base, i)
+		if err := os.WriteFile(f, []byte(lambdaFrames(w)+"(check-sat)\n"), 0644); err != nil {
+			return SolverResult{Status: "error", Output: err.Error()}
+		}
+		label := noextSolver.name
+		if i < len(weakened) {
+			label = fmt.Sprintf("%s/slice%d", noextSolver.name, i)
+		}
+		fast = append(fast, solverJob{spec: noextSolver, file: f, label: label, unsatOnly: true})
+	}
+	if !all {
+		t1 := 3
+		if timeoutS < t1 {
+			t1 = timeoutS
+		}
+		if r := raceJobs(fast, t1, false); r.Status == "unsat" {
+			return r
+		}
+	}
+	jobs := append([]solverJob{}, fast...)
+	for _, sp := range solvers {
+		jobs = append(jobs, solverJob{spec: sp, file: file, label: sp.name})
+	}
+	return raceJobs(jobs, timeoutS, all)
 }
 
 func sanitize(s string) string {
